@@ -34,6 +34,7 @@ Reporting.  One root cause fails in thousands of enumerated cases; each failing 
 failing case(s) that explain it (see `minimise`) and those are reported, with a root-cause `group`.  The number of
 failing enumerated cases is in coverage.failing_cases_before_reduction.
 """
+import hashlib
 import json
 import time
 import warnings
@@ -43,7 +44,8 @@ from klongpy import KlongInterpreter
 from klongpy.types import KGSym, KGFn, KGCall, KGOp, KGAdverb
 
 from .. import runner
-from ..values import I, R, S, L, D, U, cn, lit, show, show_outcome, close, has_literal, _promote, _block_shape
+from ..values import I, R, S, L, D, U, cn, lit, show, close, has_literal, _promote, _block_shape
+from ..values import show_outcome as _show_outcome
 
 PID = 'C05'
 
@@ -65,6 +67,11 @@ UN_FULL = (('n',),) + tuple(('r', o) for o in '+*|&') + tuple(('s', o) for o in 
 # enumeration itself.
 BIN_RED = ('-', '^', '<', '>')
 UN_RED = (('n',), ('r', '+'), ('s', '+'))
+# 3-node expressions leave ^ out: compiled code computes a^b with unbounded Python integers, and three nested powers
+# (a::4; a^a^a^a = 4^4^256) do not terminate inside one uninterruptible C call - no per-case watchdog can stop that
+# (the interpreter answers at once with an OverflowError).  The defect is reported from a directed probe instead
+# (`power_tower_probe`); with <= 2 nodes the largest power is 4^4^4 (155 digits).  % takes the place of ^.
+BIN_RED3 = ('-', '%', '<', '>')
 
 
 def gen_exprs(max_nodes, unary, binary, leaves=LEAVES):
@@ -397,6 +404,20 @@ def run_history(env, setup, ev, b0, hist):
     return so, to
 
 
+def _shrink_ints(c):
+    """Canonical value with integers beyond 60 digits replaced by a symbol carrying bit length and a hex digest (compiled
+    code computes with unbounded Python integers: 4^4^8 has 39457 digits and CPython refuses to print it)."""
+    if c[0] == 'i' and c[1].bit_length() > 200:
+        return ('y', 'int~%dbits~%s' % (c[1].bit_length(), hashlib.sha1(hex(c[1]).encode()).hexdigest()[:10]))
+    if c[0] == 'l':
+        return ('l', tuple(_shrink_ints(e) for e in c[1]))
+    return c
+
+
+def show_outcome(o):
+    return _show_outcome(('ok', _shrink_ints(o[1])) if o[0] == 'ok' else o)
+
+
 def failure(o):
     return o[0] == 'exc' or o[1] == U
 
@@ -592,7 +613,7 @@ def classify(env, pos, t, b0, hist, a, b, out):
                 return tb + 'power-rounding'
             if 'nested' in ks or 'matrix' in ks:
                 return tb + 'power-nested-operands'
-            if a[0] == 'ok' and 'complex' in show(a[1]):
+            if a[0] == 'ok' and 'complex' in show(_shrink_ints(a[1])):
                 return tb + 'power-negative-base'
             return tb + 'power-inf-or-overflow'
         if n[0] == 'b' and n[1] == '%':
@@ -778,7 +799,7 @@ def abstract_operands(env, t, b0, hist, out):
         else:
             ua, ub = uses(c, 'a'), uses(c, 'b')
             o = sub_run(env, 'top', c, b0 if ub else None, final_only(hist) if ua else (), out)[1]
-            if o[0] != 'ok' or not has_literal(o[1]):
+            if o[0] != 'ok' or not has_literal(o[1]) or _shrink_ints(o[1]) != o[1]:
                 return None
             bind[name] = lit(o[1])
         new.append(name)
@@ -978,6 +999,59 @@ def run_phases(cfg, specs):
         for label, part in parts:
             runner.merge_counts(per[label], part)
     return per
+
+
+PROBE = ('numpy', 'top', ('b', '^', 'a', ('b', '^', 'a', ('b', '^', 'a', 'a'))), None, (('kg', 0),))     # a::4 ; a^a^a^a
+PROBE_SECONDS = 15
+
+
+def power_tower_start():
+    """The one 3-node family kept out of the fan-out (see BIN_RED3): run its smallest member in a child process that
+    can be killed.  -> handle for power_tower_finish."""
+    import multiprocessing
+    import resource
+    ctx = multiprocessing.get_context('fork')
+    q = ctx.SimpleQueue()
+    backend, pos, t, b0, hist = PROBE
+    setup, ev = program(pos, t)
+
+    def child():
+        try:
+            soft = 3 << 30
+            resource.setrlimit(resource.RLIMIT_AS, (soft, resource.getrlimit(resource.RLIMIT_AS)[1]))
+        except (ValueError, OSError):
+            pass
+        ki.compile_expr = _REAL
+        q.put(show_outcome(run_side(make_interp(backend), setup, ev, b0, hist)[-1]))
+    p = ctx.Process(target=child, daemon=True)
+    p.start()
+    return p, q, time.time()
+
+
+def power_tower_finish(handle, rep_violations):
+    p, q, t0 = handle
+    backend, pos, t, b0, hist = PROBE
+    setup, ev = program(pos, t)
+    p.join(max(0.0, PROBE_SECONDS - (time.time() - t0)))
+    if p.is_alive():
+        p.kill()
+        p.join()
+        observed = 'did not terminate within %d s (killed)' % PROBE_SECONDS
+    else:
+        observed = q.get() if p.exitcode == 0 else 'child died with exit code %s' % p.exitcode
+    ki.compile_expr = _stub_compile
+    try:
+        expected = show_outcome(run_side(make_interp(backend), setup, ev, b0, hist)[-1])
+    finally:
+        ki.compile_expr = _REAL
+    key = backend + ' | ' + hist_text(setup, ev, b0, hist, 0)
+    ok = observed == expected or (observed.startswith('exc:') and expected.startswith('exc:'))
+    if not ok:
+        rep_violations.append(dict(
+            key=key, observed=observed, expected=expected,
+            case={'backend': backend, 'pos': pos, 'tree': t, 'b0': b0, 'hist': hist, 'from': key, 'probe': True},
+            snippet=None, group='power-unbounded-integer'))
+    return {'case': key, 'observed': observed, 'expected': expected, 'same': ok}
 
 
 def _tup(x):
